@@ -366,7 +366,7 @@ def cases_quat(tier, rng):
             q2[i], q2[j] = si * r, sj * r
             out.append(['quat', [fh(v) for v in q2]])
     # random: integer vectors at a random binary scale, and normalised float quaternions
-    n_int, n_flt = (1000, 300) if tier == 'quick' else (20000, 4000)
+    n_int, n_flt = (1000, 300) if tier == 'quick' else (8000, 2000)
     for _ in range(n_int):
         q = [rng.randint(-1000, 1000) for _ in range(4)]
         if not any(q):
@@ -441,7 +441,7 @@ def cases_traj(tier, rng):
             els2[i][rng.randrange(lens[i])] = v
             out.append(['seg', 1000, [[fh(x) for x in el] for el in els2]])
     # random across and beyond the 16-bit range (about one value in eight is out of range)
-    n = 2500 if tier == 'quick' else 40000
+    n = 1500 if tier == 'quick' else 20000
 
     def rnd_mm():
         return rng.uniform(-34.0, 34.0) if rng.random() < 0.7 else rng.uniform(-33.0, 33.0) * rng.choice([0.001, 0.1, 1.0, 1.0, 2.0])
@@ -494,7 +494,7 @@ def rnd_f32_bits(rng, finite=False):
 
 def cases_range(tier, rng):
     out = [['range', []]]
-    n = 1500 if tier == 'quick' else 20000
+    n = 1500 if tier == 'quick' else 10000
     for i in range(n):
         cnt = i % 13 if i < 130 else rng.randint(0, 12)        # any anchor count (5 fit a radio packet)
         ids = rng.sample(range(256), cnt)
@@ -1063,7 +1063,7 @@ def main(tier, seed, replay=None):
     stage('report')
     # 4. sensitivity: in-memory mutants must be rejected by the monitor; corrupted traces too
     sub = {}
-    step = {'fp16': 37, 'quat': 29, 'traj': 7, 'rgb': 40, 'range': 11, 'lh': 23} if tier == 'quick' else \
+    step = {'fp16': 101, 'quat': 61, 'traj': 17, 'rgb': 40, 'range': 29, 'lh': 37} if tier == 'quick' else \
         {'fp16': 11, 'quat': 97, 'traj': 23, 'rgb': 25, 'range': 41, 'lh': 7}
     for k in CHUNK:
         ks = [c for c in cases if case_kind(c) == k]
